@@ -233,6 +233,34 @@ def validate(trace_module, events, cfg=None, nchunks=NCPU, timeout=7200):
 
 # ----------------------------------------------------------------------------- real code
 
+def exec_validate(exec_fn, jobs, trace_module, batch=12000, count=None):
+    """execute the jobs and validate their events in batches (memory stays bounded: events carry bit vectors and are
+    large).  Returns (hits, vstats, n_events, samples): hits = [(verdict, job, events of that job)] for every verdict,
+    samples = [(job, events)] of the first / middle / last job."""
+    hits, samples, n_events, vs, counted = [], [], 0, [], 0
+    want = {0, len(jobs) // 2, len(jobs) - 1} if jobs else set()
+    for b0 in range(0, len(jobs), batch):
+        part = jobs[b0:b0 + batch]
+        ev_lists = pmap(exec_fn, part)
+        events = [e for evs in ev_lists for e in evs]
+        n_events += len(events)
+        if count is not None:
+            counted += sum(1 for e in events if count(e))
+        verdicts, vstats = validate(trace_module, events)
+        vs.append(vstats)
+        by_tid = {j["tid"]: (j, evs) for j, evs in zip(part, ev_lists)}
+        for v in verdicts:
+            j, evs = by_tid[v["tid"]]
+            hits.append((v, j, evs))
+        for k in want:
+            if b0 <= k < b0 + len(part):
+                samples.append((part[k - b0], ev_lists[k - b0]))
+        del ev_lists, events, by_tid
+    agg = dict(trace_module=trace_module, events=n_events, batches=len(vs), chunks=sum(v.get("chunks", 0) for v in vs),
+               wall_s=round(sum(v.get("wall_s", 0) for v in vs), 1), counted=counted)
+    return hits, agg, n_events, samples
+
+
 def _init_worker(repo):
     sys.dont_write_bytecode = True
     os.environ[GUARD] = "1"
